@@ -51,6 +51,9 @@ expression may use them too; the driver computes their float values, so the bloc
 module must resolve every name the in-process solver resolves (C20_ResolvesSolverNames, C20_Closed over the
 module's own globals, which the driver reads from the import statements of the written file).
 
+Exogenous spellings (tenth follow-up): paths written repeat-count first (2*[20.0, ] + 4*[25.0, ]), as a tuple, or
+parenthesised; the module must declare the block's own expression (C20_ExogenousDeclaredVerbatim).
+
 Magnitudes (ninth follow-up): constants 2000.0 / 1000000.0 crossed with Err_Tolerance 1e-4 / 1e-6 / default on
 coupled matrices: the equation error must stay of the order of the stated tolerance, not tolerance x |value|.
 
@@ -226,6 +229,11 @@ def system(block):
     elif block['exo'] == 3:                                  # math names and builtins in the list expression
         path_text['G'] = '[hypot(12.0, 16.0), ] * 2 + [max(25.0, e) + log1p(0.0), ] * %d' % (mt + 1)
         paths['G'] = [float(v) for v in eval(path_text['G'], _math_namespace())][:mt + 1]
+    elif block['exo'] in (4, 5, 6):                          # path expressions that do not start with a bracket
+        path_text['G'] = {4: '2*[20.0, ] + %d*[25.0, ]' % (mt + 1),
+                          5: '(' + ', '.join(repr(20.0 + 1.5 * k) for k in range(mt + 1)) + ')',
+                          6: '([20.0, ] * 2 + [25.0, ] * %d)' % (mt + 1)}[block['exo']]
+        paths['G'] = [float(v) for v in eval(path_text['G'], {})][:mt + 1]
     if block['userT'] == 'exo':
         paths['t'] = [float(k) for k in range(mt + 1)]
         path_text['t'] = '[' + ', '.join(repr(v) for v in paths['t']) + ']'
@@ -372,7 +380,7 @@ def _index_kind(node):
     return ast.unparse(node)
 
 
-EMPTY_SECTIONS = {'tol': '', 'maxTime': -1, 'vectorIsTuple': True, 'globals': [], 'declReads': [], 'decl': [], 'pack': [], 'orig': [], 'iterUnpack': [], 'iterBinds': [], 'iterReads': [],
+EMPTY_SECTIONS = {'tol': '', 'maxTime': -1, 'exoVerbatim': True, 'vectorIsTuple': True, 'globals': [], 'declReads': [], 'decl': [], 'pack': [], 'orig': [], 'iterUnpack': [], 'iterBinds': [], 'iterReads': [],
                   'unpack': [], 'varList': [], 'loopAfterPack': True}
 
 
@@ -653,7 +661,7 @@ def _one_generation(block, gen, text, path, uid, cache, run=True):
     -> (events, info); info['complete'] is True when the module ran to MaxTime without an exception."""
     math_ns = {k: getattr(math, k) for k in dir(math) if not k.startswith('_')}
     info = {'stage': '', 'exc': '', 'unbound': [], 'loop_captured': [], 'own_captured': [], 'chained_lags': [],
-            'tol_text': None, 'vector_tuple': True, 'own_in_block': [],
+            'tol_text': None, 'vector_tuple': True, 'own_in_block': [], 'exo_verbatim': True,
             'series': {}, 'inproc_exc': '', 'flags': {}, 'complete': False,
             'header': None, 'csv_exc': ''}
     events = []
@@ -688,6 +696,15 @@ def _one_generation(block, gen, text, path, uid, cache, run=True):
                                   {nm for nm in packed if nm.startswith('NEW_') and nm[4:] in packed})
     info['chained_lags'] = sorted({p['series'] for p in sec['pack'] if p['idx'] == 'STEP-1'} &
                                   {str(nm) for nm, dummy in gen.Lagged})
+    # every exogenous path is declared as  self.<name> = <the generator's own expression text>
+    try:
+        with open(path) as f:
+            declared = dict(re.findall(r'^ {8}self\.(\w+) = (.*?)\s*$', f.read(), re.M)[::-1])   # first assignment wins
+        sec['exoVerbatim'] = all(declared.get(str(nm)) == str(value).strip() for nm, value in gen.Exogenous)
+    except Exception:
+        sec['exoVerbatim'] = False
+    gf['exoVerbatim'] = sec['exoVerbatim']
+    info['exo_verbatim'] = sec['exoVerbatim']
     info['tol_text'] = sec['tol']
     info['vector_tuple'] = sec['vectorIsTuple']
     info['own_in_block'] = sorted({str(nm) for nm, dummy in gen.Endogenous + gen.Lagged + gen.Exogenous} & set(OWN_NAMES))
@@ -909,6 +926,8 @@ def _signature_of_generation(clause, block, want, endo, info, probe=False):
         root = 'module-written-with-another-blocks-tolerance'
     elif not info['vector_tuple']:
         root = 'one-variable-block-iteration-vector-is-not-a-tuple'
+    elif not info['exo_verbatim']:
+        root = 'exogenous-path-is-not-declared-as-the-block-wrote-it'
     elif info['stage'] == 'import' and info['exc'].startswith('SyntaxError') and block.get('cm', 0) >= 2:
         root = 'comment-text-breaks-the-module-docstring'
     elif info['own_captured'] and all(nm.startswith('NEW_') for nm in info['own_captured']):
